@@ -1455,6 +1455,11 @@ EGLPNUM_TYPENAME_QSLIB_INTERFACE int EGLPNUM_TYPENAME_QSchange_senses (
 	CHECKRVALG (rval, CLEANUP);
 
 	p->factorok = 0;	/* the coefficient of a logical may have changed sign */
+	if (p->basis)
+	{		/* edge norms of the stored basis belong to the old basis matrix */
+		EGLPNUM_TYPENAME_EGlpNumFreeArray (p->basis->rownorms);
+		EGLPNUM_TYPENAME_EGlpNumFreeArray (p->basis->colnorms);
+	}
 	free_cache (p);
 
 CLEANUP:
@@ -1537,6 +1542,11 @@ EGLPNUM_TYPENAME_QSLIB_INTERFACE int EGLPNUM_TYPENAME_QSchange_coef (
 	CHECKRVALG (rval, CLEANUP);
 
 	p->factorok = 0;	/* the basis matrix may have changed */
+	if (p->basis)
+	{		/* edge norms of the stored basis belong to the old basis matrix */
+		EGLPNUM_TYPENAME_EGlpNumFreeArray (p->basis->rownorms);
+		EGLPNUM_TYPENAME_EGlpNumFreeArray (p->basis->colnorms);
+	}
 	free_cache (p);
 
 CLEANUP:
